@@ -50,3 +50,13 @@ V('C05', 'neg-ir-naming-through-helper', T, 'edb.pgsql.types._get_ptrref_storage
                 col_name = nm
             else:
                 col_name = str(ptrref.id)''', None)
+
+V('C05', 'create-link-schemas-swapped', 'edb/pgsql/delta.py', 'edb.pgsql.delta.AlterLink._alter_innards',
+  'self._create_link(link, schema, orig_schema, context)', 'self._create_link(link, orig_schema, schema, context)', 'C05.R8', 'argument-alignment')
+V('C05', 'delete-link-guard-by-stack', 'edb/pgsql/delta.py', 'edb.pgsql.delta.LinkMetaCommand._delete_link',
+  'if (not isinstance(objtype.op, s_objtypes.DeleteObjectType)', 'if (not context.in_deletion(offset=1)', 'C05.R8', 'column-dropped-unless-type-dropped')
+V('C05', 'objtype-prop-named-source-skipped', 'edb/pgsql/delta.py', 'edb.pgsql.delta.PropertyMetaCommand._create_property',
+  '''                if (
+                    not isinstance(src.scls, s_links.Link)
+                    or propname not in {'source', 'target'}
+                ):''', '''                if propname not in {'source', 'target'}:''', 'C05.R8', 'objtype-property-named-source')
